@@ -58,8 +58,18 @@ def worker(args):
         opts = fmt.options(rng)
         texts = []
         Ps = []
+        spice = rng.getrandbits(32); gaps = rng.random() < .4
         for li in range(3):
             P = gen.generate(gs, **go)
+            from .c09 import spice_literals
+            spice_literals(P, random.Random(spice))                   # quote and backslash characters, leading zeros, hex, overflowing literals
+            if gaps:
+                gr = random.Random(spice + 1); n = 0                  # comments in arbitrary token gaps (some of them are lost: C10's subject)
+                for t in list(P.toks):
+                    if t.kind != "comment" and gr.random() < .05:
+                        for _ in range(gr.choice([1, 1, 2])):
+                            n += 1; t.lead.append(gen.Tok("comment", "// gap %d" % n))
+                P.index()
             lr = random.Random("%s/%d" % (gs, li))
             eol = lr.choice(["\n", "\n", "\r\n"])
             texts.append(layout.layout(P, lr, ["random", "compact", "lines"][li] if li else lr.choice(["random", "spaced"]), eol)); Ps.append(P)
